@@ -461,8 +461,40 @@ def r3_reset_complete(ctx, rid: str = "C15.R3") -> None:
                         and _is_fresh(prog, fi, st.value):
                     resets += fcfg.nodes_of(st)
             rd_nodes = fcfg.node_of_expr(rd, prog.parent)
+
+            def resets_in(g, attr):
+                gcfg = cfg_of(g)
+                out_ = []
+                for st_ in walk_no_nested(g.node):
+                    if isinstance(st_, ast.Expr) and isinstance(st_.value, ast.Call) and call_name(st_.value) == "self._nested_pipeline.apply":
+                        out_ += gcfg.nodes_of(st_)
+                    if isinstance(st_, ast.Assign) and any(isinstance(t_, ast.Attribute) and t_.attr == attr and unparse(t_.value) == "self._nested_pipeline" for t_ in st_.targets) \
+                            and _is_fresh(prog, g, st_.value):
+                        out_ += gcfg.nodes_of(st_)
+                return gcfg, out_
+
+            def reset_before_every_call(g, attr, depth=0) -> bool:
+                """g is a private helper of the class: every call of it (by name, anywhere) follows a reset in its caller"""
+                if g.cls is None or not g.name.startswith("_") or g.name.startswith("__") or depth > 2:
+                    return False
+                sites_ = [(h, n_) for h in prog.funcs.values() if h.qual != g.qual for n_ in walk_no_nested(h.node)
+                          if isinstance(n_, ast.Attribute) and n_.attr == g.name]
+                if not sites_:
+                    return False
+                for h, n_ in sites_:
+                    call_ = prog.parent(n_)
+                    if h.cls is None or h.cls.qual != g.cls.qual or not (isinstance(call_, ast.Call) and call_.func is n_ and unparse(n_.value) == "self"):
+                        return False
+                    hcfg, hres = resets_in(h, attr)
+                    hn = hcfg.node_of_expr(call_, prog.parent)
+                    if not (hres and hn and all(hcfg.must_pass(x_, hres) for x_ in hn)) and not reset_before_every_call(h, attr, depth + 1):
+                        return False
+                return True
+
             if resets and rd_nodes and all(fcfg.must_pass(x, resets) for x in rd_nodes):
                 r.ok(rid, q, f"read of self._nested_pipeline.{rd.attr} follows a reset (apply() or a fresh store) on every path", loc)
+            elif not resets and reset_before_every_call(fi, rd.attr):
+                r.ok(rid, q, f"read of self._nested_pipeline.{rd.attr} in a private helper whose every call follows a reset in the caller", loc)
             else:
                 r.violation(rid, q, short(prog.enclosing_stmt(rd), 110),
                             f"self._nested_pipeline.{rd.attr} is read although the nested pipeline was not reset for this rule (it is never run through apply()): identifiers recorded while post-processing earlier rules' queries are merged into the enclosing pipeline again, so a rule's output depends on the rules converted before it", loc)
